@@ -2,6 +2,7 @@
   C02 — the geometric product of sparse multivectors equals the bilinear extension.
 -/
 import Kingdon.Lemmas.GpDen
+import Kingdon.Lemmas.Keys
 import Kingdon.Lemmas.Products
 import Kingdon.Lemmas.CfgAlgebra
 namespace Kingdon.C02
@@ -42,6 +43,25 @@ theorem product_associative (c : Cfg) (h : c.admissible = true) (a b d : ℕ →
     (ha : InRange c a) (hb : InRange c b) (hd : InRange c d) :
     clMulS c.computeSign (clMulS c.computeSign a b) d = clMulS c.computeSign a (clMulS c.computeSign b d) :=
   clMulS_assoc_cfg c (Cfg.adm_of_admissible c h) a b d ha hb hd
+
+/-- **every blade that can receive a non-zero coefficient is present**: a blade is stored in the result exactly if
+    some pair of stored input blades contributes a term to it (non-zero table sign, accepted by the filter); no blade
+    is stored twice; a non-zero coefficient only ever sits on a stored blade -/
+theorem result_blades_exact (signf : Nat → Nat → Int) (keyout : Nat → Nat → Nat) (filt : Nat → Nat → Nat → Bool)
+    (x y : MV α) (k : Nat) :
+    (k ∈ keysOf (codegenProduct signf keyout filt x y) ↔
+      ∃ p ∈ x, ∃ q ∈ y, signf p.1 q.1 ≠ 0 ∧ filt p.1 q.1 (keyout p.1 q.1) = true ∧ keyout p.1 q.1 = k) ∧
+    (keysOf (codegenProduct signf keyout filt x y)).Nodup :=
+  ⟨mem_keys_codegenProduct signf keyout filt x y k, codegenProduct_keys_nodup signf keyout filt x y⟩
+
+theorem nonzero_coefficient_is_stored (x : MV α) (k : Nat) (h : (den x) k ≠ 0) : k ∈ keysOf x :=
+  den_ne_zero_mem_keys x k h
+
+/-- the canonical re-sorting of `do_codegen` keeps exactly the produced blades with their coefficients -/
+theorem canonical_resorting_exact (c : Cfg) (h : c.admissible = true) (x : MV α) (hk : (keysOf x).Nodup)
+    (hr : ∀ k ∈ keysOf x, k < 2 ^ c.d) :
+    den (sortCanon c x) = den x ∧ keysOf (sortCanon c x) = c.canonKeys.filter (· ∈ keysOf x) :=
+  ⟨sortCanon_den c (Cfg.adm_of_admissible c h) (binOf_injective_of_admissible c h) x hk hr, sortCanon_keys c x⟩
 
 /-- non-vacuity of `SigOK`: 3DPGA -/
 example : SigOK [0, 1, 1, 1] := by intro s hs; simp at hs; rcases hs with rfl | rfl <;> simp
